@@ -104,7 +104,12 @@ def xml_member(gen, name, t, v, ns, pref):
     if k in ('prim', 'enum'):
         return '%s<%s>%s</%s>' % (_between(), q, _noisy_text(xml_escape(lex(v, binary=(t.get('facets') or {}).get('encoding', 'base64')))), q)
     if k == 'obj':
-        return '%s<%s%s>%s</%s>' % (_between(), q, xml_attrs(t, v), xml_fields(gen, t, v, pref), q)
+        xt = ''
+        if isinstance(v, dict) and '__rt__' in v:
+            # an instance of a subclass where its base is declared: the type marker, then the subclass' fields
+            t = v['__rt__']
+            xt = ' xsi:type="%s:%s"' % (pref(t.get('ns', gen.tns)), t['name'])
+        return '%s<%s%s%s>%s</%s>' % (_between(), q, xt, xml_attrs(t, v), xml_fields(gen, t, v, pref), q)
     if k == 'arr':
         it = t['of']
         # items are named after the member type; the name Spyne chose is read off the array class
